@@ -44,3 +44,106 @@ Print Assumptions C15_one_connection_per_wantlist.
 Print Assumptions C15_close_one_keeps_peer.
 Print Assumptions C15_dropped_only_with_last.
 Print Assumptions C15_server_new_conn_frame.
+
+(* ---- package I (Client_proofs9): a further connection changes nothing of the peer's exchange state and the next poll
+   sends the same wantlist (same full flag, same entries) as it would have without it; closing one of several connections
+   keeps the entry and its request states, a fault on the closed connection leads to a FULL wantlist over a remaining one,
+   an outstanding transmission elsewhere blocks as before, otherwise the same update goes out over a remaining connection. *)
+From BS Require Import Types Wantlist Wantlist_proofs Client Client_proofs Client_proofs2 Client_proofs3 Client_proofs4 Client_proofs5 Client_proofs7 Client_proofs8 Client_proofs9 Client_props2.
+From Coq Require Import ZArith List. Import ListNotations.
+Open Scope N_scope.
+
+Theorem C15_extra_connection_keeps_state :
+  forall (sdh : bool) (ops : list cop) (p : N) (c2 : conn) (ps : peer_state) (ch : list (peer * conn)),
+  let s := st_after sdh ops in
+  al_find N.eqb p (cs_peers s) = Some ps ->
+  let s2 := fst (cstep s (CNewConn p c2)) in
+  snd (cstep s (CNewConn p c2)) = [] /\
+  al_find N.eqb p (cs_peers s2) =
+  Some
+    {|
+      p_conns := if n_mem c2 (p_conns ps) then p_conns ps else p_conns ps ++ [c2];
+      p_ss := p_ss ps;
+      p_wl := p_wl ps;
+      p_send_full := p_send_full ps
+    |} /\
+  s2 = set_peers s (cs_peers s2) /\
+  (forall q : N, q <> p -> al_find N.eqb q (cs_peers s2) = al_find N.eqb q (cs_peers s)) /\
+  (forall (c : conn) (f : bool) (es : list gen_entry),
+   In (OSendWantlist p c f es) (snd (c_poll s ch)) ->
+   exists c' : conn, In (OSendWantlist p c' f es) (snd (c_poll s2 ch))) /\
+  (forall (c' : conn) (f : bool) (es : list gen_entry),
+   In (OSendWantlist p c' f es) (snd (c_poll s2 ch)) ->
+   (exists c : conn, In (OSendWantlist p c f es) (snd (c_poll s ch))) \/
+   al_find N.eqb p (cs_peers (fst (c_poll s ch))) = None /\ f = true /\ c' = c2 /\ ~ In c2 (p_conns ps)) /\
+  (forall ps' : peer_state,
+   al_find N.eqb p (cs_peers (fst (c_poll s ch))) = Some ps' ->
+   exists ps2' : peer_state,
+     al_find N.eqb p (cs_peers (fst (c_poll s2 ch))) = Some ps2' /\
+     p_wl ps2' = p_wl ps' /\
+     p_send_full ps2' = p_send_full ps' /\
+     incl (p_conns ps') (p_conns ps2') /\
+     (p_ss ps2' = p_ss ps' \/
+      (exists cA cB : conn,
+         p_ss ps' = SsRequested (cs_now s) cA /\
+         p_ss ps2' = SsRequested (cs_now s) cB /\ In cA (p_conns ps') /\ In cB (p_conns ps2')))) /\
+  (forall q : N,
+   q <> p -> al_find N.eqb q (cs_peers (fst (c_poll s2 ch))) = al_find N.eqb q (cs_peers (fst (c_poll s ch)))) /\
+  fst (c_poll s2 ch) = set_peers (fst (c_poll s ch)) (cs_peers (fst (c_poll s2 ch))) /\
+  (forall o : cout,
+   (forall (c : conn) (f : bool) (es : list gen_entry), o <> OSendWantlist p c f es) ->
+   o <> OBadChoice -> In o (snd (c_poll s2 ch)) <-> In o (snd (c_poll s ch))).
+Proof. exact (@Client_props2.C15_extra_connection_keeps_state). Qed.
+
+Theorem C15_close_one_keeps_peer_served :
+  forall (sdh : bool) (ops : list cop) (p : N) (c : conn) (ps : peer_state) (c' : conn)
+    (ch : list (peer * conn)),
+  let s := st_after sdh ops in
+  al_find N.eqb p (cs_peers s) = Some ps ->
+  In c' (p_conns ps) ->
+  c' <> c ->
+  let s3 := fst (cstep s (CConnClosed p c)) in
+  snd (cstep s (CConnClosed p c)) = [] /\
+  al_find N.eqb p (cs_peers s3) =
+  Some
+    {| p_conns := n_remove c (p_conns ps); p_ss := p_ss ps; p_wl := p_wl ps; p_send_full := p_send_full ps |} /\
+  s3 = set_peers s (cs_peers s3) /\
+  (forall q : N, q <> p -> al_find N.eqb q (cs_peers s3) = al_find N.eqb q (cs_peers s)) /\
+  (p_ss ps = SsFailed c \/
+   (exists t : time, p_ss ps = SsRequested t c /\ (cs_now s - t <? RECEIVE_REQUEST_TIMEOUT) = false) ->
+   (exists (c1 : conn) (es : list gen_entry), In (OSendWantlist p c1 true es) (snd (c_poll s3 ch))) /\
+   (forall (c1 : conn) (f : bool) (es : list gen_entry),
+    In (OSendWantlist p c1 f es) (snd (c_poll s3 ch)) -> f = true /\ c1 <> c /\ In c1 (p_conns ps))) /\
+  (uh_gate (cs_now s) ps = None ->
+   (forall (c1 : conn) (f : bool) (es : list gen_entry), ~ In (OSendWantlist p c1 f es) (snd (c_poll s3 ch))) /\
+   (exists ps' : peer_state,
+      al_find N.eqb p (cs_peers (fst (c_poll s3 ch))) = Some ps' /\
+      p_ss ps' = p_ss ps /\ p_conns ps' = n_remove c (p_conns ps))) /\
+  (forall (c1 : conn) (f : bool) (es : list gen_entry),
+   In (OSendWantlist p c1 f es) (snd (c_poll s3 ch)) ->
+   c1 <> c /\ In c1 (p_conns ps) /\ (exists c1' : conn, In (OSendWantlist p c1' f es) (snd (c_poll s ch)))) /\
+  (forall (c1 : conn) (f : bool) (es : list gen_entry),
+   In (OSendWantlist p c1 f es) (snd (c_poll s ch)) ->
+   (exists c1' : conn, In (OSendWantlist p c1' f es) (snd (c_poll s3 ch))) \/
+   al_find N.eqb p (cs_peers (fst (c_poll s3 ch))) = None /\ f = true /\ c1 = c) /\
+  (forall ps3' : peer_state,
+   al_find N.eqb p (cs_peers (fst (c_poll s3 ch))) = Some ps3' ->
+   exists ps' : peer_state,
+     al_find N.eqb p (cs_peers (fst (c_poll s ch))) = Some ps' /\
+     p_wl ps' = p_wl ps3' /\
+     p_send_full ps' = p_send_full ps3' /\
+     incl (p_conns ps3') (p_conns ps') /\
+     (p_ss ps' = p_ss ps3' \/
+      (exists cA cB : conn,
+         p_ss ps3' = SsRequested (cs_now s) cA /\
+         p_ss ps' = SsRequested (cs_now s) cB /\ In cA (p_conns ps3') /\ In cB (p_conns ps')))) /\
+  (forall q : N,
+   q <> p -> al_find N.eqb q (cs_peers (fst (c_poll s3 ch))) = al_find N.eqb q (cs_peers (fst (c_poll s ch)))) /\
+  fst (c_poll s3 ch) = set_peers (fst (c_poll s ch)) (cs_peers (fst (c_poll s3 ch))) /\
+  (forall o : cout,
+   (forall (c1 : conn) (f : bool) (es : list gen_entry), o <> OSendWantlist p c1 f es) ->
+   o <> OBadChoice -> In o (snd (c_poll s3 ch)) <-> In o (snd (c_poll s ch))).
+Proof. exact (@Client_props2.C15_close_one_keeps_peer_served). Qed.
+
+Print Assumptions C15_extra_connection_keeps_state.
+Print Assumptions C15_close_one_keeps_peer_served.
